@@ -256,6 +256,23 @@ impl Tokenizer<'_> {
     }
 
     fn finish_outer_attribute(&mut self, start: ByteIndex, end: ByteIndex) -> Result<(), KikiErr> {
+        self.assert_outer_attribute_brackets_match(start, end)?;
+
+        self.state = State::Main;
+        self.out.push(Token::OuterAttribute(Attribute {
+            src: self.src[start.0..end.0].to_string(),
+            position: start,
+        }));
+        Ok(())
+    }
+
+    /// Checks that every right bracket in `src[start + 1..end]`
+    /// has the same kind as the left bracket it closes.
+    fn assert_outer_attribute_brackets_match(
+        &self,
+        start: ByteIndex,
+        end: ByteIndex,
+    ) -> Result<(), KikiErr> {
         let mut stack = Vec::new();
         let bracket_start = ByteIndex(start.0 + "#".len());
         for (relative_index, current) in self.src[bracket_start.0..end.0].char_indices() {
@@ -285,11 +302,6 @@ impl Tokenizer<'_> {
             }
         }
 
-        self.state = State::Main;
-        self.out.push(Token::OuterAttribute(Attribute {
-            src: self.src[start.0..end.0].to_string(),
-            position: start,
-        }));
         Ok(())
     }
 
@@ -346,7 +358,11 @@ impl Tokenizer<'_> {
 
             State::Pound(start) => Err(KikiErr::Lex(start, Some('#'))),
 
-            State::OuterAttribute(start, _, end) => self.finish_outer_attribute(start, end),
+            State::OuterAttribute(start, _, end) => {
+                // The input ended before the attribute's `[` was closed.
+                self.assert_outer_attribute_brackets_match(start, end)?;
+                Err(KikiErr::Lex(current_index, current))
+            }
         }?;
 
         self.state = State::Main;
